@@ -10,8 +10,10 @@ import Hgxv.Model.C16
   `match degSeq dimSeq fd fm picks`                        -> `cfg flag keys resid unused` | `none`
         `dimSeq` is a `;`-list of `size,count`
   `output cfg weights labels|-`                            -> `w,node,...;...` | `none`
-  `fromhyg labels edges burn thins weights`                -> `out|out|...` | `none`
-  `fromseqs degSeq dimSeq fd fm fixed picks burn thins weights` -> `flag out|out|...` | `none` -/
+  `trunc quantiles`                                        -> weights (`np.maximum(quantile, 1)`)
+  `fromhyg labels edges burn thins quantiles`              -> `out|out|...` | `none`
+  `fromseqs degSeq dimSeq fd fm fixed picks burn thins quantiles` -> `flag out|out|...` | `none`
+        `quantiles`: per sample the Poisson quantiles of `sample_truncated_poisson` (the weights are clamped to >= 1) -/
 open Wire C16
 
 def stepOf? : List Nat → Option StepDraw
@@ -72,6 +74,10 @@ def step (_ : Unit) : List String → Unit × String
       | some o => ((), showOut o)
       | none => ((), "none")
     | _, _, _ => ((), "bad-op")
+  | ["trunc", q] =>
+    match nats? q with
+    | some qs => ((), showNats (truncWeights qs))
+    | none => ((), "bad-op")
   | ["fromhyg", l, e, b, t, w] =>
     match nats? l, natss? e, steps? b, blocks? t, natss? w with
     | some labels, some edges, some burn, some thins, some ws =>
